@@ -1,4 +1,5 @@
 import FxVerif.Proofs.C06
+import FxVerif.Proofs.C05Ext
 /-!
 # C06 — outgoing value is released only once the external chain can no longer run it
 
@@ -208,6 +209,74 @@ theorem superseded_excludes_execution (b b' : Batch) (last : Nat)
   simp only [h1, h2, Cmp.eval, Bool.not_true, Bool.false_or, Bool.and_eq_true, decide_eq_true_eq, beq_iff_eq] at hcancel
   refine ⟨?_, hcancel.2⟩
   simp [h3, Cmp.eval]; omega
+
+/-- `released_only_by_observation` (every state, every operation): a batch leaves fxcore's store only at the observation
+of an external event whose height is above its timeout, or that executes a batch of the same token with the same or a
+higher nonce; an outgoing bridge call leaves only at the observation of an event whose height has reached its timeout,
+or when an observed result for it is applied.  No user message, no block (`EndBlocker` calls no clean-up: regenerated),
+no parameter change releases anything — never fxcore's own clock or a projected height. -/
+theorem released_only_by_observation (s : State) (op : Op) :
+    (∀ b ∈ s.batches, b ∉ (step s op).1.batches →
+      ∃ h ev, op = .observe h ev ∧ (b.timeout < h ∨ ∃ t n, ev = .batch t n ∧ b.token = t ∧ b.nonce ≤ n)) ∧
+    (∀ c ∈ s.calls, c ∉ (step s op).1.calls →
+      (∃ h ev, op = .observe h ev ∧ c.timeout ≤ h) ∨ (∃ n ok, op = .exec n ∧ (n, c.nonce, ok) ∈ s.pending)) :=
+  FxVerif.Proofs.C05.released_only_by_observation s op
+
+/-- `released_means_no_longer_executable` — the property over whole histories.  Environment: every observed event is one
+the bridge contract can have produced (`AdmissibleRun`: heights non-decreasing in event order, the Solidity `require`s
+as read from FxBridgeLogic.sol).  Then after every such operation list, from every initial state: a batch fxcore ever
+created and no longer holds (executed, superseded, or cancelled for time-out — its transfers are refundable again) can
+not be executed by any further admissible event, at any height; an outgoing bridge call fxcore no longer holds (refunded
+for time-out, or settled by its result) can not be run by any further admissible event.  So the same funds are never
+released on fxcore and afterwards executed on the external chain. -/
+theorem released_means_no_longer_executable (s0 : State) (h0 : IsInit s0) (ops : List Op) (ha : AdmissibleRun s0 {} ops) :
+    let s := run s0 ops
+    let x := (runExt s0 {} ops).2
+    (∀ b ∈ x.created, b ∉ s.batches → ∀ h, ¬ admissible x (.observe h (.batch b.token b.nonce))) ∧
+    (∀ c ∈ x.createdCalls, c ∉ s.calls → ∀ h ok, ¬ admissible x (.observe h (.result c.nonce ok))) := by
+  have hj := J_run (J_init h0) ops ha
+  rw [runExt_fst] at hj
+  have hs1 : solBatchNonceCmp = .lt := by decide
+  have hs2 : solBatchTimeoutCmp = .lt := by decide
+  have hs3 : solCallTimeoutCmp = .lt := by decide
+  have hs4 : solCallNonceOnce = true := by decide
+  simp only
+  constructor
+  · intro b hb hnot h hadm
+    obtain ⟨hh, b', hb', ht, hn, hnonce, htime⟩ := hadm
+    have hnd : (((runExt s0 {} ops).2.created).map (·.nonce)).Nodup := by rw [hj.nonces]; exact nodup_range'
+    have heq : b' = b := nodup_map_inj (fun b : Batch => b.nonce) _ hnd b' hb' b hb hn
+    subst heq
+    simp only [hs1, hs2, Cmp.eval, decide_eq_true_eq] at hnonce htime
+    exact hnot (hj.batches b' hb' hnonce (by omega))
+  · intro c hc hnot h ok hadm
+    obtain ⟨hh, c', hc', hn, hdone, htime⟩ := hadm
+    have hnd : (((runExt s0 {} ops).2.createdCalls).map (·.nonce)).Nodup := by rw [hj.cnonces]; exact nodup_range'
+    have heq : c' = c := nodup_map_inj (fun c : Call => c.nonce) _ hnd c' hc' c hc hn
+    subst heq
+    simp only [hs3, Cmp.eval, decide_eq_true_eq] at htime
+    exact hnot (hj.calls c' hc' (hdone hs4) (by omega))
+
+/-- the converse reading: an admissible event always finds the record it is about — the batch execution is applied
+without panic, the bridge-call result finds its outgoing bridge call still stored -/
+theorem admissible_event_finds_record (s0 : State) (h0 : IsInit s0) (ops : List Op) (h : Nat) (ev : Ev)
+    (ha : AdmissibleRun s0 {} (ops ++ [.observe h ev])) :
+    (doObserve (run s0 ops) h ev).2 ≠ .panic ∧
+    (∀ t n, ev = .batch t n → ∃ b ∈ (run s0 ops).batches, b.token = t ∧ b.nonce = n) ∧
+    (∀ c ok, ev = .result c ok → ∃ cl ∈ (run s0 ops).calls, cl.nonce = c) := by
+  obtain ⟨ha1, ha2⟩ := admissibleRun_append ha
+  have hj := J_run (J_init h0) ops ha1
+  rw [runExt_fst] at hj
+  have hs3 : solCallTimeoutCmp = .lt := by decide
+  have hs4 : solCallNonceOnce = true := by decide
+  refine ⟨(J_observe hj h ev ha2.1).2, fun t n he => ?_, fun c ok he => ?_⟩
+  · subst he
+    obtain ⟨b, _, hb, ht, hn⟩ := admissible_batch_found hj ha2.1
+    exact ⟨b, hb, ht, hn⟩
+  · subst he
+    obtain ⟨hh, cl, hcl, hn, hdone, htime⟩ := ha2.1
+    simp only [hs3, Cmp.eval, decide_eq_true_eq] at htime
+    exact ⟨cl, hj.calls cl hcl (by rw [hn]; exact hdone hs4) (by omega), hn⟩
 
 /-- KNOWN DEFECT (see `fixes/C05-pending-result-refund.md`): the full-strength statement "a bridge call whose successful
 execution has been observed is never refunded" is FALSE of the code.  The result claim is only *stored* at observation
